@@ -74,6 +74,7 @@ SLICES = {
     ],
     "find_run": [("/*SLICE*/", "src/util/trysort.rs", "stmt", r"if start > 0 \{", "try_sort")],
     "gen_slice_arm": [("/*SLICE*/", "src/builtin/generators.rs", "block", r"Self::Slice\(gen, start, end\)\s*=>\s*either_g\(\{", "_iter")],
+    "take_while_loop": [("/*SLICE*/", "src/builtin/sequence.rs", "stmt", r"for \(\(i, item\), search\) in search\(", "add_sequence_take_while")],
     "trampoline": [
         ("/*SLICE*/", "src/runtime_scope.rs", "block", r"XFunction::UserFunction\s*\{\s*template,\s*output\s*\}\s*=>\s*\{", "eval_func_with_values"),
     ],
